@@ -23,7 +23,8 @@ ID = "C02"
 ENGINE = "eqlmc-E1"
 RULE = ("cases = (variable set, condition tree or none, ordered selection, world); all trees of depth<=d over the join "
         "vocabulary x all selections x rich world, plus depth<=1 trees x every tiny world; non-trivial = expected row "
-        "set neither empty nor the full product")
+        "set neither empty nor the full product"
+        ' Wave 7: selections with several expressions of one variable; three-way disjunctions with one variable projected away over every world of 2 x rows and 3 y rows on the 2x2 grid.')
 ASSUMPTIONS = ["attribute values non-falsy (falsy values: C19)", "row order is not compared (the statement promises a set)"]
 
 VARSETS = {"xy": VARS3[:2], "xyz": VARS3, "self": VARS_SELF, "x": VARS3[:1]}
